@@ -13,3 +13,9 @@ for h in c05.HARNESSES:
 HARNESSES += [dict(h) for h in c05.C06_EXTRA]
 OUTSIDE = ["documents other than the crafted ones; the text layer composed with the import logic (the tokenizer is decided on arbitrary bytes, the import logic on crafted element trees; whole texts of thousands of characters do not conclude)",
            "libxml2 backend (foreign library code)", "diff XML loading", "hangs: termination is only covered through the unwinding assertions of the encoded loops"]
+
+_na = [h for h in HARNESSES if h["name"] == "next_attr_bytes"][0]
+for _m, _nm, _bd in ((0, "small", "caller buffers of 0, 1 and 2 arbitrary bytes handed to hwloc_topology_set_xmlbuffer's back end (incl. size 0)"), (1, "starttag", "the text <topology version=\"2.0\" followed by 0..2 arbitrary bytes (with and without the closing '>')")):
+    HARNESSES.append(dict(_na, name="nolibxml_init_" + _nm, entry="h_nolibxml_init", defines=dict(_na.get("defines", {}), NIMODE=_m), encoded=["hwloc_nolibxml_backend_init", "hwloc_nolibxml_look_init", "hwloc_nolibxml_backend_exit", "sscanf (model)"],
+                          tiers={"quick": {}, "thorough": {}}, bounds=_bd + "; concrete lengths selected by a symbolic input; asserted: 0/-1, no access outside the copy, the cursor stays inside it", cost=30,
+                          unwindset=dict(_na.get("unwindset", {}), **{"strncmp.0": 12, "strchr.0": 40, "strlen.0": 40, "vp_strto.0": 4, "vp_strto.1": 6, "vsscanf.0": 40, "vsscanf.1": 12, "vsscanf.2": 12, "h_nolibxml_init.0": 4, "nolibxml_init_case.0": 30, "nolibxml_init_case.1": 4, "memcpy.0": 40})))
